@@ -87,7 +87,7 @@ C04_SCHED_RUN = {
     "harness": "schedmc", "variant": "schedsan",
     "sources": ["engines/schedmc/schedmc.cpp", "engines/schedmc/vp_sched.cpp", "engines/busmc/busworld.cpp"],
     "deps": DEPS + ["engines/schedmc/vp_sched.h", "engines/schedmc/vp_pthread_rename.h"],
-    "quick": {"parts": 16, "args": [], "deadline": 150, "bounds": "preemption bound 3, 2 client threads + bus thread, 4 client program sets x 4 bus behaviours"},
+    "quick": {"parts": 16, "args": [], "deadline": 400, "bounds": "preemption bound 3, 2 client threads + bus thread, 4 client program sets x 4 bus behaviours"},
     "thorough": {"parts": 16, "args": [], "deadline": 1200, "bounds": "preemption bound 4 (3 with 3 client threads), 7 client program sets x 4 bus behaviours, plain and enhanced"},
 }
 
